@@ -27,9 +27,9 @@ def ROp.handle? : ROp → Option Handle
   | .strOff h => some h
 
 /-- number of root allocations after the call -/
-def ROp.nextRoots (op : ROp) (n : Nat) : Nat :=
+def ROp.nextRoots (b : Bytes) (op : ROp) (n : Nat) : Nat :=
   match op with
-  | .root => n + 1
+  | .root => if (readHdr b 0).isSome then n + 1 else n    -- a failed root fetch allocates nothing
   | _ => n
 
 /-- the handle an answer hands out, if any -/
@@ -66,14 +66,14 @@ def answer (b : Bytes) (nroots : Nat) : ROp → RAns
 
 def run (b : Bytes) (nroots : Nat) : List ROp → List RAns
   | [] => []
-  | op :: ops => answer b nroots op :: run b (op.nextRoots nroots) ops
+  | op :: ops => answer b nroots op :: run b (op.nextRoots b nroots) ops
 
 /-- the client only uses handles it was given: each call's handle occurs in an earlier answer -/
 def respects (b : Bytes) (nroots : Nat) (issued : List Handle) : List ROp → Prop
   | [] => True
   | op :: ops =>
     (match op.handle? with | some h => h ∈ issued | none => True) ∧
-    respects b (op.nextRoots nroots) ((answer b nroots op).handles ++ issued) ops
+    respects b (op.nextRoots b nroots) ((answer b nroots op).handles ++ issued) ops
 
 end Spec
 end SfVerif
